@@ -42,16 +42,17 @@ Spec == Init /\ [][Next]_vars
 StepTyped(prems, res) == \A t \in StepTerms(prems, res) : TypeOf(t, <<>>) = BoolT
 SchemaTyped == StepTyped(cand.prems, ResOfRule(cand))
 RefSound == (cand.mut = "correct" /\ Judged(cand)) =>
-               /\ Tier(cand.prems, ResOfRule(cand)) # "none"
-               /\ Entailed(cand.prems, ResOfRule(cand))
+               /\ TierStep(cand.rule, cand.prems, ResOfRule(cand)) # "none"
+               /\ EntailedStep(cand.rule, cand.prems, ResOfRule(cand))
                /\ HypsSubset(cand.prems, ResOfRule(cand))
-DbSound == \A e \in db : Judged(cand) => Entailed(e.from, e.th)
+DbSound == \A e \in db : (Judged(cand) /\ phase = "admitted") => EntailedStep(cand.rule, e.from, e.th)
 \* a closed proof of an intended step really refutes what it assumed (and the oracle could tell)
 ClosedRefutes == phase = "refuted" => /\ Tier(AsPrems(WrapAssumed(cand)), PS(FalseC)) # "none"
                                      /\ Entailed(AsPrems(WrapAssumed(cand)), PS(FalseC))
 \* explicit near misses are really not consequences (the oracle can tell them apart)
-NearMissRefuted == (Judged(cand) /\ cand.mut \in {"nm.outerhyp", "nm.intonly", "nm.strict", "nm.offbyone", "nm.binminus", "nm.zerodiv", "nm.freevar", "nm.shape", "nm.arity", "nm.vars", "nm.noteq", "nm.quant", "nm.arith"})
-                      => (Tier(cand.prems, ResOfRule(cand)) # "none" /\ ~Entailed(cand.prems, ResOfRule(cand)))
+NearMissRefuted == (Judged(cand) /\ cand.mut \in {"nm.outerhyp", "nm.intonly", "nm.strict", "nm.offbyone", "nm.binminus", "nm.zerodiv", "nm.freevar", "nm.shape", "nm.arity", "nm.vars", "nm.noteq", "nm.quant", "nm.arith",
+                                              "nm.capture", "nm.zerocoeff", "nm.case9", "nm.onepoint", "nm.let"})
+                      => (TierStep(cand.rule, cand.prems, ResOfRule(cand)) # "none" /\ ~EntailedStep(cand.rule, cand.prems, ResOfRule(cand)))
 \* whole proofs (spec -> code): commands of smt/veriT/command.py
 CmdX(k, id, rule, f, cl, pm, cx) == [k |-> k, id |-> id, rule |-> rule, t |-> f, cl |-> cl, pm |-> pm, ctx |-> cx]
 Cmd(k, id, rule, f, cl, pm) == CmdX(k, id, rule, f, cl, pm, <<>>)
@@ -96,7 +97,7 @@ ASSUME NestedSane == \A q \in {"all", "exists"} :
                        /\ ~Entailed(AsPrems(NestedAssumed(q)), PS(FalseC))
                        /\ Entailed(AsPrems(NestedAssumed(q) \o <<Eqa(nx, ny)>>), PS(FalseC))
 \* ------------------------------------------------------------------ emission of the candidates as vectors (spec -> code), once, at start-up
-ToJ(i) == [rule |-> i.rule, mut |-> i.mut, prems |-> i.prems, cl |-> i.cl, sizes |-> i.x.sizes, coeffs |-> i.x.coeffs, inst |-> i.x.inst, ctx |-> i.x.ctx]
+ToJ(i) == [rule |-> i.rule, mut |-> i.mut, prems |-> i.prems, cl |-> i.cl, sizes |-> i.x.sizes, coeffs |-> i.x.coeffs, inst |-> i.x.inst, ctx |-> i.x.ctx, names |-> i.x.names]
 ASSUME Emitted == LET cs == SetToSeq(Candidates) IN
                   /\ ndJsonSerialize(IOEnv.VECTOR_FILE, [k \in 1..Len(cs) |-> ToJ(cs[k])])
                   /\ LET ws == SetToSeq({ c \in Candidates : Wrappable(c) }) IN
